@@ -37,12 +37,39 @@ def LV.ra : LV → RA
   | .y => .y
   | .el t i => .of (.el t i)
 
+/-- a readable 16-bit operand (stage 6): an `unsigned short` variable (two cells, low byte first), a constant,
+    or an `unsigned char` variable (zero-extended) -/
+inductive WA where
+  | wvar (t : String)
+  | wconst (n : BitVec 16)
+  | wbyte (a : String)
+  deriving Repr, DecidableEq, Inhabited
+
+/-- the low and the high byte of a 16-bit operand, as operands of 8-bit instructions: the high byte of the
+    variable `t` is the cell `t+1` -/
+def WA.lo : WA → Atom
+  | .wvar t => .var t
+  | .wconst n => .const (n.truncate 8)
+  | .wbyte a => .var a
+
+def WA.hi : WA → Atom
+  | .wvar t => .el t (.k 1)
+  | .wconst n => .const ((n >>> 8).truncate 8)
+  | .wbyte _ => .const 0
+
+def WA.isConst : WA → Bool
+  | .wconst _ => true
+  | _ => false
+
 inductive RStmt where
   | asg (v : LV) (a : RA)
   | bin (v : LV) (op : BOp) (a b : RA)
   | opasg (v : LV) (op : BOp) (a : RA)
   | inc (v : LV)
   | dec (v : LV)
+  | asgW (s : String) (a : WA)                     -- 16-bit destination `s` (an `unsigned short` variable)
+  | binW (s : String) (op : BOp) (a b : WA)
+  | opasgW (s : String) (op : BOp) (a : WA)
   deriving Repr, DecidableEq, Inhabited
 
 def RA.isConst : RA → Bool
@@ -55,9 +82,11 @@ def RA.isReg : RA → Bool
 
 def RStmt.target : RStmt → LV
   | .asg v _ | .bin v _ _ _ | .opasg v _ _ | .inc v | .dec v => v
+  | .asgW s _ | .binW s _ _ _ | .opasgW s _ _ => .var s
 
 def RInFragment : RStmt → Bool
   | .bin _ _ a b => !(a.isConst && b.isConst)
+  | .binW _ _ a b => !(a.isConst && b.isConst)
   | _ => true
 
 /-- the scratch cell -/
@@ -132,7 +161,40 @@ def incCode {α : Type} (none : α) (r : Atom → α) (inc : Bool) : LV → List
     loadA none r (.of (.el t .y)) ++ opCode none r (if inc then .add else .sub) (.of (.const 1)) ++ storeA none r (.el t .y)
   | .el t i => [(if inc then .INC else .DEC, r (.el t i))]
 
+/-! ### 16-bit destinations (stage 6): two byte passes, the carry travels from the first to the second -/
+
+def wordered (op : BOp) (a b : WA) : WA × WA :=
+  if op.commutes && a.isConst && !b.isConst then (b, a) else (a, b)
+
+/-- is the low-byte operation emitted? `generate_arithm` looks at the *whole* constant: `+` is skipped when the
+    low byte is 0, `&` when the low byte is 255, `-` `|` `^` only when the whole constant is 0 -/
+def lowEmitted (op : BOp) : WA → Bool
+  | .wconst v => (match op with
+      | .add => v.truncate 8 != (0 : Byte)
+      | .band => v.truncate 8 != (255 : Byte)
+      | _ => v != 0)
+  | _ => true
+
+/-- `t & 255` with `t` a 16-bit variable: the generator answers "the low byte of t, high byte 0" without code -/
+def maskLow (op : BOp) (x y : WA) : Bool :=
+  op == .band && (match x with | .wvar _ => true | _ => false) && y == .wconst 255
+
+def hiCell (s : String) : Atom := .el s (.k 1)
+
+def asgWCode {α : Type} (r : Atom → α) (s : String) (a : WA) : List (Mn × α) :=
+  [(.LDA, r a.lo), (.STA, r (.var s)), (.LDA, r a.hi), (.STA, r (hiCell s))]
+
+def binWCode {α : Type} (none : α) (r : Atom → α) (s : String) (op : BOp) (x y : WA) : List (Mn × α) :=
+  if maskLow op x y then [(.LDA, r x.lo), (.STA, r (.var s)), (.LDA, r (.const 0)), (.STA, r (hiCell s))]
+  else
+    [(.LDA, r x.lo)] ++ (carryOf op).map (fun m => (m, none)) ++
+      (if lowEmitted op y then (mainOf op).map fun m => (m, r y.lo) else []) ++ [(.STA, r (.var s))] ++
+    [(.LDA, r x.hi)] ++ (mainOf op).map (fun m => (m, r y.hi)) ++ [(.STA, r (hiCell s))]
+
 def rtemplate {α : Type} (none : α) (r : Atom → α) (zp : String → Bool) : RStmt → List (Mn × α)
+  | .asgW s a => asgWCode r s a
+  | .binW s op a b => let p := wordered op a b; binWCode none r s op p.1 p.2
+  | .opasgW s op a => binWCode none r s op (.wvar s) a
   | .asg v a => asgCode none r zp v a
   | .bin v op a b => let p := rordered op a b; binCode none r zp v op p.1 p.2
   | .opasg v op a => binCode none r zp v op v.ra a
@@ -172,6 +234,7 @@ def flagsAfter (zp : String → Bool) (fl : Option FRef) : RStmt → Option FRef
   | .bin v op a b => let p := rordered op a b; if orZeroReg op p.1 p.2 then asgFlags zp fl v p.1 else some v
   | .opasg v op a => if orZeroReg op v.ra a then asgFlags zp fl v v.ra else some v
   | .inc v | .dec v => some v
+  | .asgW _ _ | .binW _ _ _ _ | .opasgW _ _ _ => none
 
 /-! ### what the source prescribes, on memory and the two register variables -/
 
@@ -200,7 +263,36 @@ def binSpec (L : Layout) (σ : SrcSt) (v : LV) (op : BOp) (x y : RA) : SrcSt :=
   if orZeroReg op x y then wr L σ v (rval L σ x)
   else wr L (tmpWrite L σ op y) v (op.apply (rval L σ x) (rval L σ y))
 
+/-! 16-bit statements, byte by byte in the order the code works: the low bytes (with the carry out of an
+    addition / the borrow of a subtraction), then the high bytes *read after the low byte was written*.
+    `CV.C01.word_*` relates this to plain 16-bit arithmetic for layouts in which the high cell of a 16-bit
+    variable is nobody else's cell. -/
+
+def lowRes (op : BOp) (a b : Byte) : Byte × Bool :=
+  match op with
+  | .add => (a + b, decide (a.toNat + b.toNat ≥ 256))
+  | .sub => (a - b, decide (b.toNat ≤ a.toNat))
+  | op => (op.apply a b, false)
+
+def highRes (op : BOp) (c : Bool) (a b : Byte) : Byte :=
+  match op with
+  | .add => a + b + (if c then 1 else 0)
+  | .sub => a - b - (if c then 0 else 1)
+  | op => op.apply a b
+
+def asgWSpec (L : Layout) (σ : SrcSt) (s : String) (a : WA) : SrcSt :=
+  let σ1 := wr L σ (.var s) (rval L σ (.of a.lo))
+  wr L σ1 (.el s (.k 1)) (rval L σ1 (.of a.hi))
+
+def binWSpec (L : Layout) (σ : SrcSt) (s : String) (op : BOp) (x y : WA) : SrcSt :=
+  let r := lowRes op (rval L σ (.of x.lo)) (rval L σ (.of y.lo))
+  let σ1 := wr L σ (.var s) r.1
+  wr L σ1 (.el s (.k 1)) (highRes op r.2 (rval L σ1 (.of x.hi)) (rval L σ1 (.of y.hi)))
+
 def rspec (L : Layout) (σ : SrcSt) : RStmt → SrcSt
+  | .asgW s a => asgWSpec L σ s a
+  | .binW s op a b => let p := wordered op a b; binWSpec L σ s op p.1 p.2
+  | .opasgW s op a => binWSpec L σ s op (.wvar s) a
   | .asg v a => wr L σ v (rval L σ a)
   | .bin v op a b => let p := rordered op a b; binSpec L σ v op p.1 p.2
   | .opasg v op a => binSpec L σ v op v.ra a
